@@ -82,7 +82,9 @@ def step (st : Unit) (line : String) : Unit × String :=
   | "run" =>
     match parse o with
     | none => (st, "bad-op")
-    | some s => (st, s!"stopped={verdict s} invariants=ok")
+    -- the world invariants re-checked on the stopped stores (chain validity, watermarks, progress, leaks …) are MONITOR-ONLY
+    -- observations of the Go side (`c.Report`): the model cannot know the world state, so they are not on the diffed line
+    | some s => (st, s!"stopped={verdict s}")
   | _ => (st, "bad-op")
 
 end Drv.C13
